@@ -39,6 +39,13 @@ theorem facts_ok2 :
     Facts.c16EventerReturns = true ∧ Facts.c16ChanWakeLocked = true ∧ Facts.c16AckLocked = true ∧
     Facts.c16ListenBreakOnShutdown = true := by decide
 
+/-- `MigrateProfile` (c2/session.go): every error exit after `s.state.Set(stateMoving)` calls
+`s.state.Unset(stateMoving)` first (count of exits that do not, regenerated from the source). A Session
+left with the Moving flag ends `listen()` without its final SvShutdown and `shutdown()` returns before
+`close(s.ch)`: a later Close would never return. The close machine above is about Sessions that are not
+moving; this obligation is what keeps a failed migration inside it. -/
+theorem migrate_error_exits_roll_back : Facts.c16MigrateExitsNoRollback = 0 := by decide
+
 theorem reach_inv1 (client : Bool) (prog : List Kind) (hu : uniqueListen prog = true) (hr cr : Bool)
     (q : Nat) (sched : List Nat) : Inv1 (cfgF client) (reach client prog hr cr q sched) :=
   inv1_run (cfgF client) facts_ok.1 prog.length sched _ (inv1_init (cfgF client) prog hu hr cr q)
